@@ -968,6 +968,8 @@ def run(ck: Check):
                             "newick": kbl_newick(t_, n_, lengths_)})
 
         X.section_translation(ck, rng, record, kbl_for)
+        X.section_kbl_nonclock(ck, rng, record, kbl_newick)
+        X.section_smooth_extreme(ck, rng, record)
         # dated trees in other time units: above the documented floor of heights_from_branch_lengths (eps = 1e-6 per
         # branch) the tree must come back unchanged; below it the floor acts by design (measured and recorded, not a
         # clause of C06, whose statement is about parameters <-> heights and dates -> tips)
@@ -1098,6 +1100,30 @@ def replay(path: str) -> int:
         rc = X.replay_route(obj)
         print("VIOLATES" if rc else "property holds on this input")
         return rc
+    if typ == "kbl-nonclock":
+        bad, newick = X.run_nonclock(obj, kbl_newick)
+        print(f"{newick} dates {obj['dates']} ({obj['mode']} branch lengths) read with keep_branch_lengths")
+        for name, w in bad:
+            print(f"VIOLATES [{name}]: {w}")
+        print("VIOLATES" if bad else "property holds on this input")
+        return 1 if bad else 0
+    if typ == "smooth-extreme":
+        found = []
+
+        class _C:
+            samples = []
+
+            def thorough(self):
+                return False
+
+            def case(self, *a, **k):
+                pass
+
+        X.section_smooth_extreme(_C(), __import__("random").Random(0), lambda sig, what, rep, size: found.append(what))
+        for w in found[:4]:
+            print("VIOLATES:", w)
+        print("VIOLATES" if found else "property holds on the smooth-maximum sweep")
+        return 1 if found else 0
     if typ == "translation":
         t = G.parse_paren(obj["tree"])
         base, dates, kind, x = obj["base"], obj["dates"], obj["kind"], obj["x"]
